@@ -107,6 +107,13 @@ def fault_programs(rng):
         args = list(good)
         args[i] = rng.choice(_WRONG_FOR[ann])
         return f"RETURN = {name}({', '.join(args)})", "QueryFunctionException", "wrong-argument-type"
+    if k == 5 and rng.random() < 0.4:
+        # no bucket answers to that description: the filter matches nothing, or it matches but no such bucket is on that host
+        args = rng.choice(['"no-such-watcher"', '"no-such-watcher", "host"', '"aw-watcher", "another-host"', '"window", ""',
+                           '"afk", "HOST"', '"", "nowhere"'])
+        if args == '"window", ""':
+            return f"RETURN = find_bucket({args})", "value", "find-bucket-empty-hostname"
+        return f"RETURN = find_bucket({args})", "QueryFunctionException", "unknown-bucket"
     if k == 5:
         fn = rng.choice(["query_bucket", "query_bucket_eventcount"])
         return f'RETURN = {fn}("{rng.choice(["nope", "aw-watcher", ""])}")', "QueryFunctionException", "unknown-bucket"
